@@ -139,8 +139,9 @@ func zzCidrInside(inner, outer zzCidr) bool {
 	return vf_And(os <= is, ie <= oe)
 }
 
-// prefix lengths explored (quick); thorough explores every length for one CIDR of the world
-var zzPrefixMenu = []int{0, 1, 8, 24, 31, 32}
+// prefix lengths explored: quick {0,24,32}; thorough {0,1,8,24,31,32} and every length 0..32 for one CIDR of the world
+var zzPrefixMenuQuick = []int{0, 24, 32}
+var zzPrefixMenuFull = []int{0, 1, 8, 24, 31, 32}
 
 // zzCidrBook maps the CIDR strings the harness generated to their pieces
 type zzCidrBook struct {
@@ -154,8 +155,10 @@ func (b *zzCidrBook) New(name string) string {
 	if vf_Tier() > 0 && !b.fullUsed {
 		b.fullUsed = true
 		n = vf_Choose(name+".len", 33)
+	} else if vf_Tier() > 0 {
+		n = zzPrefixMenuFull[vf_Choose(name+".len", len(zzPrefixMenuFull))]
 	} else {
-		n = zzPrefixMenu[vf_Choose(name+".len", len(zzPrefixMenu))]
+		n = zzPrefixMenuQuick[vf_Choose(name+".len", len(zzPrefixMenuQuick))]
 	}
 	base := vf_Uint32Split(name, n)
 	var hi uint32
